@@ -403,6 +403,9 @@ class Proc(object):
                     args.append(self.coerce(env.vars[n][0], env.vars[n][1], t))
                 else:
                     if not actual:
+                        if n in p.get("defaults", {}):
+                            args.append(p["defaults"][n])      # the parameter's default value, as declared (checked against the source in gen_logic)
+                            continue
                         raise Untranslatable("arity of %s" % fname)
                     args.append(self.coerce(*self.expr(actual.pop(0), env), t))
             if actual:
@@ -432,6 +435,14 @@ class Proc(object):
                 recv, rty = self.expr(f.value, env)
             except Untranslatable:
                 recv, rty = None, None
+            if isinstance(rty, tuple) and rty[0] == "Opt" and isinstance(rty[1], tuple) and rty[1][0] == "Rec":
+                m = self.spec.get("methods", {}).get(("Opt" + rty[1][1], f.attr))
+                if m:
+                    lname, argtys, rret = m
+                    if len(argtys) != len(e.args):
+                        raise Untranslatable("arity of %s.%s" % (rty[1][1], f.attr))
+                    args = [self.coerce(*self.expr(a, env), w) for a, w in zip(e.args, argtys)]
+                    return ("(%s %s %s)" % (lname, recv, " ".join(args)), rret)
             if isinstance(rty, tuple) and rty[0] == "Rec":
                 m = self.spec.get("methods", {}).get((rty[1], f.attr))
                 if m:
@@ -665,7 +676,7 @@ class Proc(object):
         p = self.procs.get((self.spec["file"], fname))
         if p is not None and p.get("inout"):
             names = [n for n, _ in p["params"] if not n.startswith("self.") and n != "self"]
-            if len(c.args) != len(names):
+            if len(c.args) > len(names) or any(n not in p.get("defaults", {}) for n in names[len(c.args):]):
                 raise Untranslatable("arity of %s" % fname)
             idx = names.index(p["inout"])
             if not isinstance(c.args[idx], ast.Name):
@@ -706,6 +717,9 @@ class Proc(object):
             lean, ty = env.vars[e.id]
             if isinstance(ty, tuple) and ty[0] == "Opt" and isinstance(ty[1], tuple) and ty[1][0] == "Rec":
                 return self.match_opt(e.id, lean, ty, env, kt, kf, True)
+            if ty == ("Opt", "Str"):
+                n = env.fresh(e.id)
+                return "(match %s with\n| some %s => (if %s != \"\" then %s else %s)\n| none => %s)" % (lean, n, n, kt(env.bind(e.id, n, "Str")), kf(env), kf(env))
             if isinstance(ty, tuple) and ty[0] == "Rec":
                 return kt(env)
             if isinstance(ty, tuple) and ty[0] == "List":
@@ -942,9 +956,26 @@ class Proc(object):
             raise Untranslatable("for over %s" % (xty,))
         self.loopn += 1
         lname = "%s_loop%d" % (self.name, self.loopn)
+        # A loop that contains another loop, or is contained in one, cannot hand "the rest of the function" to its [] case (that would need the outer loop's
+        # remaining items): it is translated as a FOLD - the loop function returns the variables its body assigns, the caller goes on with them.  Such a
+        # loop may not `return` / `raise` from inside.
+        def walk_own(nodes):
+            for n in nodes:
+                yield n
+                for c in ast.iter_child_nodes(n):
+                    if not isinstance(c, (ast.FunctionDef, ast.ClassDef, ast.Lambda)):
+                        for m in walk_own([c]):
+                            yield m
+        inner_nodes = list(walk_own(s.body))
+        nested = any(isinstance(n, ast.For) for n in inner_nodes) or getattr(self, "_loop_depth", 0) > 0
+        if nested:
+            if any(isinstance(n, (ast.Return, ast.Raise)) for n in inner_nodes):
+                raise Untranslatable("return / raise inside nested loops")
+            return self.forloop_fold(s, rest, env, k, xs, xty, lname)
         # parameters of the loop function: every variable in scope (by its current lean name / narrowed type)
         scope = sorted(env.vars.items())
-        scope = [(n, l, t) for n, (l, t) in scope if not (isinstance(t, tuple) and t[0] == "Assoc")]
+        # a variable the loop target shadows is neither carried nor available after the loop (in Python it would hold the last item then, with another type)
+        scope = [(n, l, t) for n, (l, t) in scope if not (isinstance(t, tuple) and t[0] == "Assoc") and n != s.target.id]
         assoc = [(n, l, t) for n, (l, t) in sorted(env.vars.items()) if isinstance(t, tuple) and t[0] == "Assoc"]
         if assoc:
             raise Untranslatable("look-up table in scope of a loop")
@@ -966,6 +997,53 @@ class Proc(object):
         ind = lambda t: "\n".join(("    " + l if i else l) for i, l in enumerate(t.split("\n")))
         self.aux.append("def %s%s : %s → %s\n  | [] => %s\n  | %s :: %s => %s\n" % (lname, sig, lty(xty), lty(self.ret), ind(nil_case), v, tail, ind(cons_case)))
         return "%s %s %s" % (lname, " ".join([n for n, _ in self.fixed] + [l for (_, l, _) in scope]), xs)
+
+    def forloop_fold(self, s, rest, env, k, xs, xty, lname):
+        scope = [(n, l, t) for n, (l, t) in sorted(env.vars.items()) if not (isinstance(t, tuple) and t[0] == "Assoc") and n != s.target.id]
+        if any(isinstance(t, tuple) and t[0] == "Assoc" for _, (_, t) in env.vars.items()):
+            raise Untranslatable("look-up table in scope of a loop")
+        assigned = self.assigns(s.body)
+        carried = [(n, l, t) for (n, l, t) in scope if n in assigned]
+        if not carried:
+            raise Untranslatable("a nested loop that changes nothing")
+        rty = carried[0][2] if len(carried) == 1 else ("Prod",) + tuple(t for _, _, t in carried)
+        inner = Env(counter=env.counter)
+        pnames = []
+        for n, l, t in scope:
+            pn = "c_" + n.replace(".", "_")
+            inner.vars[n] = (pn, t)
+            pnames.append((pn, t))
+        v, tail = "x_" + s.target.id, inner.fresh("rest")
+        body_env = inner.bind(s.target.id, v, xty[1])
+
+        def result(en):
+            parts = [self.coerce(en.vars[n][0], en.vars[n][1], t) for (n, _, t) in carried]
+            return parts[0] if len(parts) == 1 else "(" + ", ".join(parts) + ")"
+
+        def recurse(en):
+            return "%s %s %s" % (lname, " ".join([n for n, _ in self.fixed] + [en.vars[n][0] if en.vars[n][1] == t else self.coerce(en.vars[n][0], en.vars[n][1], t) for (n, _, t) in scope]), tail)
+        saved_ret, saved_depth = self.ret, getattr(self, "_loop_depth", 0)
+        self.ret, self._loop_depth = rty, saved_depth + 1          # join points inside the body produce the loop's result type
+        try:
+            nil_case = result(inner)
+            cons_case = self.block(s.body, body_env, recurse)
+        finally:
+            self.ret, self._loop_depth = saved_ret, saved_depth
+        fixed = "".join(" (%s : %s)" % (n, lty(t)) for n, t in self.fixed)
+        sig = fixed + "".join(" (%s : %s)" % (pn, lty(t)) for pn, t in pnames)
+        ind = lambda t: "\n".join(("    " + l if i else l) for i, l in enumerate(t.split("\n")))
+        self.aux.append("def %s%s : %s → %s\n  | [] => %s\n  | %s :: %s => %s\n" % (lname, sig, lty(xty), lty(rty), ind(nil_case), v, tail, ind(cons_case)))
+        call = "(%s %s %s)" % (lname, " ".join([n for n, _ in self.fixed] + [l for (_, l, _) in scope]), xs)
+        # the caller goes on with the carried variables
+        res = env.fresh("loop")
+        out = "let %s : %s := %s;\n" % (res, lty(rty), call)
+        en = env
+        for i, (n, l, t) in enumerate(carried):
+            nl = env.fresh(n.replace(".", "_"))
+            proj = res if len(carried) == 1 else "%s.%s" % (res, ".".join(["2"] * i + (["1"] if i < len(carried) - 1 else [])))
+            out += "let %s : %s := %s;\n" % (nl, lty(t), proj)
+            en = en.bind(n, nl, t)
+        return out + self.block(rest, en, k)
 
     # -------------------------------------------------------------------------------------------------------------------- main
     def translate(self):
@@ -1025,6 +1103,10 @@ RD_REC = {"PRange": {"start": ("start", "Int"), "range_type": ("range_type", "St
 POT_REC = {"PotRec": {"speciesA": ("a", "Str"), "speciesB": ("b", "Str")}}
 POT_METHODS = {("PotRec", "energy"): ("energyOf", ["Rat"], "OV"), ("PotRec", "force"): ("forceOf", ["Rat"], "OV")}
 TAB_REC = {"TabRec": {"nr": ("nr", "Int"), "cutoff": ("cutoff", "Rat"), "potentials": ("potentials", ("List", ("Rec", "PotRec")))}}
+EAM_REC = {"EamRec": {"species": ("species", "Str"), "atomicNumber": ("atomicNumber", "Int"), "mass": ("mass", "Rat"), "latticeConstant": ("latticeConstant", "Rat"),
+                      "latticeType": ("latticeType", "Str"), "embeddingFunction": ("embed", ("Rec", "FnRec")), "electronDensityFunction": ("dens", ("Rec", "FnRec"))},
+           "FnRec": {}}
+EAM_METHODS = {("FnRec", "__call__"): ("evalFnOV", ["Rat"], "OV"), ("EamRec", "embeddingFunction"): ("embedOf", ["Rat"], "OV")}
 CALLABLE_REC = {"Callable": {"has_deriv": ("has_deriv", "Bool"), "has_deriv2": ("has_deriv2", "Bool")}}
 
 PROCS = [
@@ -1081,6 +1163,40 @@ PROCS = [
          params=[("self", ("Rec", "TabRec")), ("pot", ("Rec", "PotRec")), ("fp", "Stream")], ret="Stream", records=dict(POT_REC, **TAB_REC), methods=POT_METHODS),
     dict(name="gulp_write", file="pair_tabulation.py", func="GULP_PairTabulation.write", writer=True, inout="fp",
          params=[("self", ("Rec", "TabRec")), ("fp", "Stream")], ret="Stream", records=dict(POT_REC, **TAB_REC), methods=POT_METHODS),
+    # ---- C03 / C04 / C05: the EAM writers (setfl, setfl Finnis-Sinclair, TABEAM pieces)
+    dict(name="setfl_element_header", file="_lammpsWriteEAM.py", func="_writeSetFLElementHeader", writer=True, inout="out",
+         params=[("eampot", ("Rec", "EamRec")), ("out", "Stream")], ret="Stream", records=EAM_REC),
+    dict(name="setfl_embedding", file="_lammpsWriteEAM.py", func="_writeSetFLEmbeddingFunction", writer=True, inout="out",
+         params=[("nrho", "Int"), ("drho", "Rat"), ("eampot", ("Rec", "EamRec")), ("out", "Stream")], ret="Stream", records=EAM_REC, methods=EAM_METHODS),
+    dict(name="setfl_density_function", file="_lammpsWriteEAM.py", func="_writeDensityFunction", writer=True, inout="out",
+         params=[("func", ("Rec", "FnRec")), ("nr", "Int"), ("dr", "Rat"), ("out", "Stream")], ret="Stream", records=EAM_REC, methods=EAM_METHODS),
+    dict(name="setfl_density", file="_lammpsWriteEAM.py", func="_writeSetFLDensityFunction", writer=True, inout="out",
+         params=[("eampot", ("Rec", "EamRec")), ("eampots", ("List", ("Rec", "EamRec"))), ("nr", "Int"), ("dr", "Rat"), ("out", "Stream")], ret="Stream", records=EAM_REC, methods=EAM_METHODS),
+    dict(name="setfl_density_fs", file="_lammpsWriteEAM.py", func="_writeSetFLDensityFunctionFinnisSinclair", writer=True, inout="out",
+         params=[("eampot", ("Rec", "EamRec")), ("eampots", ("List", ("Rec", "EamRec"))), ("nr", "Int"), ("dr", "Rat"), ("out", "Stream")], ret="Stream", records=EAM_REC, methods=EAM_METHODS,
+         subscripts={("EamRec", "electronDensityFunction"): ("densOf", "Str", ("Rec", "FnRec"))}),
+    dict(name="setfl_pairkey", file="_lammpsWriteEAM.py", func="_writeSetFLPairPots.pairkey",
+         params=[("a", "Str"), ("b", "Str")], ret=("List", "Str"), locals={"k": ("List", "Str")}),
+    dict(name="setfl_pair_pots", file="_lammpsWriteEAM.py", func="_writeSetFLPairPots", writer=True, inout="out",
+         params=[("nr", "Int"), ("dr", "Rat"), ("eampots", ("List", ("Rec", "EamRec"))), ("pairpots", ("List", ("Rec", "PotRec"))), ("out", "Stream"), ("scale_r", "Bool")], ret="Stream",
+         records=dict(EAM_REC, **POT_REC), methods={("OptPotRec", "energy"): ("energyOfOpt", ["Rat"], "OV")}, defaults={"scale_r": "true"},
+         local_defs={"pairkey": ("setfl_pairkey", ["Str", "Str"], ("List", "Str"))}, absent_objects={"zeroPair": ("ZeroPair", {"energy": 0.0})},
+         locals={"pairpotsdict": ("AssocL", ("List", "Str"), ("Rec", "PotRec"))}),
+    dict(name="setfl_write", file="_lammpsWriteEAM.py", func="_writeSetFL", writer=True, inout="out",
+         params=[("nrho", "Int"), ("drho", "Rat"), ("nr", "Int"), ("dr", "Rat"), ("cutoff", "Rat"), ("eampots", ("List", ("Rec", "EamRec"))), ("pairpots", ("List", ("Rec", "PotRec"))),
+                 ("comments", ("List", "Str")), ("out", "Stream"),
+                 ("writeDensityFunction", ("Fun", [("Rec", "EamRec"), ("List", ("Rec", "EamRec")), "Int", "Rat", "Stream"], "Stream"))], ret="Stream",
+         records=dict(EAM_REC, **POT_REC), methods=EAM_METHODS, inout_calls={"writeDensityFunction": 4, "_writeSetFLHeader": 7},
+         implicit=[("setflHeader", ("Fun", ["Int", "Rat", "Int", "Rat", "Rat", ("List", ("Rec", "EamRec")), ("List", "Str"), "Stream"], "Stream"))],
+         ops={"_writeSetFLHeader": ("setflHeader", ["Int", "Rat", "Int", "Rat", "Rat", ("List", ("Rec", "EamRec")), ("List", "Str"), "Stream"], "Stream")}),
+    dict(name="tabeam_tabulate", file="_dlpoly_writeTABEAM.py", func="_tabulateFunction", writer=True, inout="outputfile",
+         params=[("outputfile", "Stream"), ("func", ("Rec", "FnRec")), ("numpoints", "Int"), ("step", "Rat")], ret="Stream", records=EAM_REC, methods=EAM_METHODS,
+         locals={"row": ("List", "Tok")}),
+    dict(name="tabeam_embedding", file="_dlpoly_writeTABEAM.py", func="_writeEmbeddingFunction", writer=True, inout="outfile",
+         params=[("eampotential", ("Rec", "EamRec")), ("nrho", "Int"), ("drho", "Rat"), ("outfile", "Stream")], ret="Stream", records=EAM_REC, methods=EAM_METHODS),
+    dict(name="tabeam_density", file="_dlpoly_writeTABEAM.py", func="_writeDensityFunction", writer=True, inout="outfile",
+         params=[("speciesA", "Str"), ("speciesB", ("Opt", "Str")), ("electronDensityFunction", ("Rec", "FnRec")), ("nr", "Int"), ("dr", "Rat"), ("outfile", "Stream")], ret="Stream",
+         records=EAM_REC, methods=EAM_METHODS),
     # ---- C13: species filter
     dict(name="check_tuple", file="config/_filtered_config_parser.py", func="FilteredConfigParser._check_tuple",
          params=[("self._self_species_list", ("List", "Str")), ("self._self_exclude_flag", "Bool"), ("check_tuple", ("List", "Str"))], ret="Bool"),
@@ -1153,6 +1269,7 @@ inductive OV where
   | int (i : Int) | num (q : Rat) | str (s : String)
   | fn (what : String) (fid : Nat) (x : Rat)       -- `pot.energy(r)`, `pot.force(r)`, `_calculateForce(pot, r)`
   | repr (v : OV)                                  -- `_representable(v)`
+  | scaled (r : Rat) (v : OV)                      -- `val *= r`
 deriving DecidableEq, Repr
 
 structure Tok where
@@ -1164,7 +1281,7 @@ structure PotRec where
   a : String
   b : String
   fid : Nat
-deriving DecidableEq, Repr
+deriving DecidableEq, Repr, Inhabited
 
 /-- a pair tabulation object as its writers read it -/
 structure TabRec where
@@ -1180,6 +1297,40 @@ def representable (v : OV) : OV := .repr v
 
 /-- `range(a, b)` -/
 def intRange (a b : Int) : List Int := (List.range (b - a).toNat).map fun (k : Nat) => a + (k : Int)
+
+/-- a callable handed to an EAM writer (embedding, density, pair function): its identity -/
+structure FnRec where
+  fid : Nat
+deriving DecidableEq, Repr, Inhabited
+
+/-- an `EAMPotential` as the writers read it; for Finnis-Sinclair models `electronDensityFunction` is a dictionary, read through `densOf` -/
+structure EamRec where
+  species : String
+  atomicNumber : Int
+  mass : Rat
+  latticeConstant : Rat
+  latticeType : String
+  embed : FnRec
+  dens : FnRec
+  densFS : List (String × FnRec)
+deriving Repr, Inhabited
+
+def evalFnOV (f : FnRec) (x : Rat) : OV := .fn "value" f.fid x
+def embedOf (p : EamRec) (x : Rat) : OV := .fn "value" p.embed.fid x
+/-- `pot.electronDensityFunction[species]` (a missing key is a `KeyError` in Python; the builder zero-fills, so the writers never meet one: the look-up is total here with an inert default) -/
+def densOf (p : EamRec) (sp : String) : FnRec := ((p.densFS.reverse.find? fun e => e.1 == sp).map (·.2)).getD ⟨0⟩
+/-- `pp.energy(r)` where `pp` is a declared pair potential or the local zero object -/
+def energyOfOpt (pp : Option PotRec) (r : Rat) : OV := match pp with | some p => .fn "energy" p.fid r | none => .num 0
+
+/-- `xs[i]` for an index that a surrounding `range(len(xs))` keeps in bounds -/
+def listGet {α : Type} [Inhabited α] (l : List α) (i : Int) : α := l.getD i.toNat default
+
+/-- `d.get(k, absent)` on a dictionary built by `d[key] = v` assignments: the most recent binding of the key -/
+def lookupLast {κ β : Type} [BEq κ] (d : List (κ × β)) (k : κ) : Option β := (d.reverse.find? fun e => e.1 == k).map (·.2)
+
+/-- `sep.join(pieces)` of formatted pieces -/
+def joinToks (sep : String) (ps : List Tok) : Tok := ⟨sep.intercalate (ps.map (·.fmt)), ps.flatMap (·.args)⟩
+def tokSuffix (t : Tok) (suffix : String) : Tok := ⟨t.fmt ++ suffix, t.args⟩
 
 def sepTok : Tok := ⟨"<os.linesep>", []⟩
 
@@ -1288,6 +1439,20 @@ def prepare(spec, src, tree):
         ast.copy_location(tgt, found.targets[0])
         pre.append(a)
     fn.body = pre + body
+    for obj, (cls, methods) in spec.get("absent_objects", {}).items():
+        # e.g. zeroPair = ZeroPair() where `class ZeroPair: def energy(self, rij): return 0.0` - the class must be exactly that constant object
+        cdef = next((n for n in ast.walk(fn) if isinstance(n, ast.ClassDef) and n.name == cls), None)
+        if cdef is None:
+            raise Untranslatable("no local class %s" % cls)
+        for mname, const in methods.items():
+            m = next((n for n in cdef.body if isinstance(n, ast.FunctionDef) and n.name == mname), None)
+            ok = m is not None and len(m.body) == 1 and isinstance(m.body[0], ast.Return) and isinstance(m.body[0].value, ast.Constant) and m.body[0].value.value == const
+            if not ok:
+                raise Untranslatable("%s.%s is not `return %r`" % (cls, mname, const))
+        inst = any(isinstance(n, ast.Assign) and len(n.targets) == 1 and isinstance(n.targets[0], ast.Name) and n.targets[0].id == obj
+                   and isinstance(n.value, ast.Call) and isinstance(n.value.func, ast.Name) and n.value.func.id == cls and not n.value.args for n in fn.body)
+        if not inst:
+            raise Untranslatable("%s is not an instance of %s" % (obj, cls))
     if spec.get("sig_from_locals"):
         # the parameters are the locals the dropped helper calls would have set; the Python signature is (self, <section>)
         fn.args.args = [ast.arg(arg="self")] + [ast.arg(arg=n) for n, _ in spec["params"]]
@@ -1330,6 +1495,12 @@ def gen_logic(repo, outdir, summary, write_if_changed):
                 if not ok:
                     raise Untranslatable("%s is not functools.cmp_to_key(%s)" % (kname, cmpf))
             fn = prepare(spec, src, tree)
+            for dn, dv in spec.get("defaults", {}).items():
+                names = [a.arg for a in fn.args.args]
+                defs = dict(zip(names[len(names) - len(fn.args.defaults):], fn.args.defaults))
+                want = {"true": True, "false": False}.get(dv, dv)
+                if dn not in defs or not isinstance(defs[dn], ast.Constant) or defs[dn].value != want:
+                    raise Untranslatable("default of %s is not %s" % (dn, dv))
             p = _SegProc(spec, src, fn, procs)
             text = p.translate()
             res[spec["name"]] = True
